@@ -19,6 +19,7 @@ from pyPRISM.omega.SingleSite import SingleSite
 from pyPRISM.omega.NoIntra import NoIntra
 from pyPRISM.omega.InterMolecular import InterMolecular
 
+from .. import suite as SUITE
 from .. import refmodel as R
 
 PID = 'C11'
@@ -159,6 +160,8 @@ NS = [2, 3, 5, 10, 100, 1000, 10000]
 
 
 def cases(ctx):
+    if ctx.mine(1):
+        yield {'kind': 'repo_suite'}          # the repository's own tests, run in-process under this check's monitors
     rng = ctx.rng('c11')
     n = ctx.budget(640, 8000)
     for it in range(n):
@@ -257,6 +260,8 @@ def run_dk_invalid(ctx, case):
 
 
 def run_case(ctx, case):
+    if case.get('kind') == 'repo_suite':
+        return SUITE.run(ctx, pattern='[!C]*_test.py')       # everything but the CalcPRISM tests (17 s of solving that adds no events here)
     if case['kind'] == 'dk_invalid':
         return run_dk_invalid(ctx, case)
     rng = np.random.default_rng(case['seed'])
